@@ -99,7 +99,8 @@ var targets = []*target{
 			cl := electricpb.WrapApi(srv)
 			return &inst{
 				add: func(id, tag string, k int) (string, error) {
-					m := &traits.ElectricMode{Id: id, Title: tag, Voltage: float32(k)}
+					// the third mode added is the device's normal mode (at most one may be)
+					m := &traits.ElectricMode{Id: id, Title: tag, Voltage: float32(k), Normal: k == 2}
 					if id == "" {
 						got, err := model.CreateMode(m)
 						if err != nil {
